@@ -572,14 +572,18 @@ func ParseLexerVocab(src string) *LexerVocab {
 			v.Tokens = append(v.Tokens, n)
 		}
 	}
-	if m := reTokensBlock.FindStringSubmatch(src); m != nil {
-		for _, n := range strings.Split(m[1], ",") {
-			if n = strings.TrimSpace(n); n != "" {
-				add(n)
+	toks := tokenize(src)
+	// the tokens { A, B } block, read from the comment-free token stream (comments may stand inside the block)
+	for i := 0; i+1 < len(toks); i++ {
+		if toks[i] == "tokens" && toks[i+1] == "{" {
+			for j := i + 2; j < len(toks) && toks[j] != "}"; j++ {
+				if toks[j] != "," {
+					add(toks[j])
+				}
 			}
+			break
 		}
 	}
-	toks := tokenize(src)
 	// walk rules: NAME ':' ... ';'
 	i := 0
 	for i < len(toks) && toks[i] != ";" {
